@@ -272,6 +272,11 @@ func (o *orC04) checkPublished(e *ZKEvent) {
 				if raw, ok := s.zk.get("/test/health/" + h); ok && strings.Contains(raw, `"ping_ok":true`) && s.net.blocked(srcHostOf(e.Inc), h) {
 					culprit = "unreachable-member-kept-on-its-own-health-record"
 				}
+				// its threads run, but its source is another member (e.g. the old master, after the
+				// replica missed the switchover): calcActiveNodes looks at the thread state only
+				if sv.Up && sv.HasChannel && sv.IORun && sv.SQLRun && !sv.IOConnecting && sv.Source != m.master && (m.isHA(sv.Source) || m.isCascade(sv.Source)) {
+					culprit = "replica-streaming-from-another-member-listed"
+				}
 				m.violate("C04", "member_not_replicating", culprit, fmt.Sprintf("%s published %s although %s has not been replicating from the master since before %v, %d membership evaluations ago (inactivation delay %dms)", e.Inc, e.Data, h, first, o.evalCount[h], s.spec.Cfg.InactivationDelayMs))
 			}
 		}
